@@ -1,8 +1,12 @@
 package main
 
 import (
+	"bytes"
 	"encoding/json"
 	"fmt"
+	"io"
+	"os"
+	"os/exec"
 	"time"
 
 	"github.com/llir/llvm/ir"
@@ -26,6 +30,55 @@ type C14Scenario struct {
 	Observers []Obs  `json:"observers"`
 	Tape      *Tape  `json:"tape"`
 	Note      string `json:"note,omitempty"`
+	// XProc: the reference (the steps alone) is computed by a fresh child
+	// process instead of earlier in this one, and this history is the first thing
+	// its own process does: whatever the library keeps per PROCESS (a memo, a table
+	// built at first use) is then first touched in the order this history touches
+	// it, not in the order the reference did a moment ago.
+	XProc bool `json:"xproc,omitempty"`
+}
+
+// c14ChildRef runs the steps of p alone in a fresh child process and returns the
+// final text ("" and a reason if there is none).
+func c14ChildRef(p *Prog) (text string, skip string) {
+	jb, err := json.Marshal(p)
+	if err != nil {
+		return "", "harness: cannot encode the program"
+	}
+	cmd := exec.Command(os.Args[0], "-prop", "C14", "-mode", "xref-child")
+	cmd.Stdin = bytes.NewReader(jb)
+	var outb, errb bytes.Buffer
+	cmd.Stdout, cmd.Stderr = &outb, &errb
+	if err := cmd.Run(); err != nil {
+		return "", "the steps alone do not print in a fresh process (" + clip(errb.String(), 200) + ")"
+	}
+	return outb.String(), ""
+}
+
+// c14ChildMain is the child side of c14ChildRef.
+func c14ChildMain() {
+	raw, _ := io.ReadAll(os.Stdin)
+	var p Prog
+	if json.Unmarshal(raw, &p) != nil {
+		os.Exit(3)
+	}
+	simrt.Load((&Tape{}).config())
+	var text string
+	pan, msg := protect(func() {
+		simCall(func() {
+			m, _, err := runProgramAlone(&p)
+			if err != nil {
+				panic(err)
+			}
+			text = m.String()
+		})
+	})
+	if pan {
+		fmt.Fprintln(os.Stderr, msg)
+		os.Exit(4)
+	}
+	os.Stdout.WriteString(text)
+	os.Exit(0)
 }
 
 type c14Outcome struct {
@@ -44,19 +97,29 @@ func c14Run(sc *C14Scenario) *c14Outcome {
 	simrt.Load((&Tape{}).config())
 	var refM *ir.Module
 	var err error
-	if c, msg := simCallSafe(func() { refM, _, err = runProgramAlone(sc.Prog) }); c {
-		err = fmt.Errorf("%s", msg)
-	}
-	if err != nil {
-		out.skip = "construction program panics without any observer (generator problem or C03)"
-		out.detail = err.Error()
-		return out
-	}
 	var refText string
-	if pan, msg := protect(func() { simCall(func() { refText = refM.String() }) }); pan {
-		out.skip = "final print panics without any observer (not C14's business)"
-		out.detail = msg
-		return out
+	if sc.XProc {
+		// ... in a fresh child process; nothing of the library has run in this
+		// process yet when the history below begins.
+		var skip string
+		if refText, skip = c14ChildRef(sc.Prog); skip != "" {
+			out.skip = "cross-process reference: " + skip
+			return out
+		}
+	} else {
+		if c, msg := simCallSafe(func() { refM, _, err = runProgramAlone(sc.Prog) }); c {
+			err = fmt.Errorf("%s", msg)
+		}
+		if err != nil {
+			out.skip = "construction program panics without any observer (generator problem or C03)"
+			out.detail = err.Error()
+			return out
+		}
+		if pan, msg := protect(func() { simCall(func() { refText = refM.String() }) }); pan {
+			out.skip = "final print panics without any observer (not C14's business)"
+			out.detail = msg
+			return out
+		}
 	}
 	// The history.
 	mc := newMachine()
@@ -131,6 +194,10 @@ func c14Run(sc *C14Scenario) *c14Outcome {
 	if final != refText {
 		out.class, out.sig = "final-text-differs", "final-text-differs"
 		out.detail = "final String() differs from the observer-free run: " + firstDiff(final, refText)
+		if sc.XProc {
+			out.sig = "final-text-differs (reference from a fresh process)"
+			out.detail = "final String() of this history, run as the first thing its process does, differs from the steps alone run in another fresh process: " + firstDiff(final, refText)
+		}
 		return out
 	}
 	if pan, msg := protect(func() { simCall(func() { final2 = mc.m.String() }) }); pan || final2 != final {
@@ -212,9 +279,15 @@ func c14GenScenario(r *rng) *C14Scenario {
 }
 
 func c14Search() {
+	if *flagMode == "xref-child" {
+		c14ChildMain()
+		return
+	}
+	xproc := *flagMode == "xproc"
 	sum := newSummary()
 	distinct := hashSet{}
 	failures := 0
+	runsInProcess := 0
 	for idx := *flagFrom; idx < *flagRuns; idx++ {
 		if idx%shardN != shardI {
 			continue
@@ -222,11 +295,26 @@ func c14Search() {
 		if overBudget() || failures >= *flagMaxFail {
 			break
 		}
+		if xproc && runsInProcess >= 1 {
+			// one history per process: it has to be the first thing the process does
+			sum.Stopped = true
+			sum.NextSeed = uint64(idx)
+			break
+		}
+		runsInProcess++
 		curIndex = idx
 		noteProgress(idx)
 		runSeed := derive(*flagSeed, fmt.Sprintf("C14/%d", idx))
 		curSeed = runSeed
+		if xproc {
+			runSeed = derive(*flagSeed, fmt.Sprintf("C14x/%d", idx))
+			curSeed = runSeed
+		}
 		sc := c14GenScenario(newRNG(runSeed))
+		if xproc {
+			c14MakeXProc(newRNG(runSeed^0x9e3779b97f4a7c15), sc)
+			sum.Counters["histories run as the first activity of a fresh process, reference from another fresh process"]++
+		}
 		o := c14Run(sc)
 		if o.skip != "" {
 			sum.Skipped[o.skip]++
@@ -261,6 +349,32 @@ func c14Search() {
 	}
 	sum.Distinct = distinct.list()
 	emit(outRec{T: "summary", Property: "C14", Summary: sum})
+}
+
+// c14MakeXProc turns a scenario into a cross-process one: shorter, and (half of
+// them) seeded with what per-process state tends to be keyed by — several
+// constants that are close to each other (same digits in another width, same
+// low bits), looked at by observers of globals and initialisers.
+func c14MakeXProc(r *rng, sc *C14Scenario) {
+	sc.XProc = true
+	if len(sc.Prog.Steps) > 30 {
+		sc.Prog.Steps = sc.Prog.Steps[:30]
+	}
+	if len(sc.Observers) > 12 {
+		sc.Observers = sc.Observers[:12]
+	}
+	if r.chance(1, 2) {
+		var pre []Step
+		for i, n := 0, 1+r.intn(3); i < n; i++ {
+			pre = append(pre, Step{Op: "global", K: 10, A: r.intn(1 << 12), Name: ""})
+		}
+		sc.Prog.Steps = append(pre, sc.Prog.Steps...)
+		for i := range sc.Observers {
+			if r.chance(2, 3) {
+				sc.Observers[i] = Obs{K: []int{16, 10, 16}[r.intn(3)], A: r.intn(8)}
+			}
+		}
+	}
 }
 
 func c14Replay(raw json.RawMessage) *outRec {
